@@ -8,7 +8,7 @@ Open Scope list_scope.
 
 (* ---- what a run delivered ---- *)
 Definition is_data_line (l : oline) : bool :=
-  match l with OJson _ | OText _ | OEntry _ | OPath _ _ | ODump _ _ => true | _ => false end.
+  match l with OJson _ | OText _ | OEntry _ | OPath _ _ | ODump _ _ | ODumpPartial => true | _ => false end.
 (* the data lines of stdout: everything except the usage hint, warnings, progress messages, separators *)
 Definition data_lines (out : list oline) : list oline := filter is_data_line out.
 
@@ -56,6 +56,13 @@ Definition set_post (a : set_args) (saveto : nat -> lres nat) (change : nat -> c
   | ChNothing => d1
   | _ => match change d1 with ChOk d2 => d2 | ChYpe _ d2 => d2 | _ => d1 end
   end.
+
+(* what the written text reloads to: for YAML the post-state as far as ruamel's emitter is faithful
+   ([yamlview], an oracle), for JSON its JSON view *)
+Definition set_written (a : set_args) (flow : nat -> bool) (yamlview jsonview : nat -> nat) (d : nat) : nat :=
+  if negb (flow d) && negb (sa_is_json_ext a) then yamlview d else jsonview d.
+(* ruamel's YAML emitter round-trips every state *)
+Definition dump_faithful (yamlview : nat -> nat) : Prop := forall d, yamlview d = d.
 
 (* ---- yaml-paths: the search results ---- *)
 Definition result_texts (xs : expr_results) : list string :=
